@@ -210,6 +210,16 @@ func GenTree(seed uint64, shape, names string, cs int64, maxBytes int64) Tree {
 		for i := 0; i < n; i++ {
 			t.Entries = append(t.Entries, Entry{Rel: fmt.Sprintf("d%02d/t%04d", r.Intn(nd), i), Size: int64(r.Intn(40))})
 		}
+	case "prefixnames":
+		// names that are string prefixes of their neighbours in sort order:
+		// empty directories next to files / directories whose name continues
+		// theirs, files next to directories, with and without separators
+		t.Entries = append(t.Entries,
+			Entry{Rel: "build", Dir: true}, Entry{Rel: "build.log", Size: capSize(sizes[r.Intn(len(sizes))])},
+			Entry{Rel: "docs", Dir: true}, Entry{Rel: "docs-old", Dir: true}, Entry{Rel: "docs-old/" + nm(1), Size: capSize(1 + int64(r.Intn(int(cs+1))))},
+			Entry{Rel: "pkg", Dir: true}, Entry{Rel: "pkg/gen", Dir: true}, Entry{Rel: "pkg/generated.go", Size: capSize(cs)},
+			Entry{Rel: "a", Dir: true}, Entry{Rel: "a/b", Dir: true}, Entry{Rel: "a/bc", Size: 3}, Entry{Rel: "ab", Size: capSize(2*cs + 1)},
+			Entry{Rel: "x", Size: 1}, Entry{Rel: "x.d", Dir: true}, Entry{Rel: "x.d/x", Size: 0}, Entry{Rel: "z", Dir: true}, Entry{Rel: "z ", Dir: true}, Entry{Rel: "z0", Dir: true})
 	case "nested":
 		t.Entries = append(t.Entries, Entry{Rel: "sub", Dir: true}, Entry{Rel: "sub/deep", Dir: true}, Entry{Rel: "emptydir", Dir: true}, Entry{Rel: "sub/emptydir2", Dir: true})
 		n := 3 + r.Intn(6)
